@@ -418,6 +418,99 @@ pub fn run(tier: Tier, seed: u64) -> i32 {
         }
     });
 
+    // E. Two identity components of one range row violated with cancelling
+    // residues: delta(u) + delta(v) = 0 for delta(x) = x(x-1)(x-2)(x-3). The
+    // row is unsatisfied (two components non-zero), so the prover must refuse -
+    // it does unless two of the four deltas are weighted with the same power of
+    // the separation challenge. (u, v) by solving the quartic through
+    // s = x - 3/2, where delta = S^2 - (5/2) S + 9/16 with S = s^2.
+    let n_pairs = tier.pick(24u64, 240u64);
+    par_cases(n_pairs, threads(), |ci| {
+        use ff::Field;
+        let mut rng = case_rng(seed, "C05.E", ci);
+        let (i, j) = [(0usize, 1usize), (0, 2), (0, 3), (1, 2), (1, 3), (2, 3)][(ci % 6) as usize];
+        let half = BlsScalar::from(2u64).invert().unwrap();
+        let three_half = BlsScalar::from(3u64) * half;
+        let delta = |x: BlsScalar| x * (x - BlsScalar::one()) * (x - BlsScalar::from(2u64)) * (x - BlsScalar::from(3u64));
+        let mut pair = None;
+        for _ in 0..64 {
+            let su = rand_scalar(&mut rng);
+            let u = su + three_half;
+            let t = delta(u);
+            // S_v = (5/2 +- sqrt(4 - 4T)) / 2
+            let disc = BlsScalar::from(4u64) - BlsScalar::from(4u64) * t;
+            let Some(root) = Option::<BlsScalar>::from(disc.sqrt()) else { continue };
+            for sign in [root, -root] {
+                let s_v2 = (BlsScalar::from(5u64) * half + sign) * half;
+                if let Some(sv) = Option::<BlsScalar>::from(s_v2.sqrt()) {
+                    let v = sv + three_half;
+                    if delta(u) + delta(v) == BlsScalar::zero() && delta(u) != BlsScalar::zero() {
+                        pair = Some((u, v));
+                    }
+                }
+            }
+            if pair.is_some() {
+                break;
+            }
+        }
+        let Some((u, v)) = pair else {
+            ev.bucket("cancelling_pair_not_found");
+            return;
+        };
+        // quads x_0..x_3 of the row: c - 4d, b - 4c, a - 4b, d_next - 4a
+        let mut x = [BlsScalar::from(rng.next_u64() % 4), BlsScalar::from(rng.next_u64() % 4), BlsScalar::from(rng.next_u64() % 4), BlsScalar::from(rng.next_u64() % 4)];
+        x[i] = u;
+        x[j] = v;
+        let four = BlsScalar::from(4u64);
+        let d = BlsScalar::from(rng.next_u64() % 1000);
+        let c = four * d + x[0];
+        let b_ = four * c + x[1];
+        let a = four * b_ + x[2];
+        let d_next = four * a + x[3];
+        let z = BlsScalar::zero();
+        let mut sel = [z; 11];
+        sel[crate::refimpl::sat::Q_RANGE] = BlsScalar::one();
+        // registers 2..6 = a, b, c, d, d_next; filler rows before so that the row is not first
+        let mut ops = vec![Op::Witness(0), Op::Witness(1), Op::Witness(2), Op::Witness(3), Op::Witness(4)];
+        for _ in 0..(ci / 6 % 5) {
+            ops.push(Op::Raw { s: [z; 11], pi: Pi::None, w: [0, 0, 0, 0] });
+        }
+        ops.push(Op::Raw { s: sel, pi: Pi::None, w: [2, 3, 4, 5] });
+        ops.push(Op::Raw { s: [z; 11], pi: Pi::None, w: [0, 0, 0, 6] });
+        let prog = Arc::new(Program { ops, n_scalar_inputs: 5, n_point_inputs: 0, n_digit_inputs: 0 });
+        let inputs = Inputs { scalars: vec![a, b_, c, d, d_next], points: vec![], digits: vec![] };
+        let Ok((layout, _)) = common::build_instance(&prog, &Inputs::default_for(&prog), &[]) else { return };
+        let pp = crate::util::pp(common::min_degree(layout.gates.len()));
+        let Ok(compiled) = common::compile(&pp, b"c05-pairs", &prog) else {
+            ev.violation("C05:compile-failed:cancelling-pair-layout", json!({"ci": ci}));
+            return;
+        };
+        let mut prng = case_rng(seed, "C05.E.prove", ci);
+        let proved = common::prove(&compiled.prover, &prog, &inputs, &[], &mut prng, PlonkVersion::V3);
+        let Some((inst, _)) = proved.instance else { return };
+        let rep = sat::check(&compiled.layout, &inst);
+        let names: Vec<String> = rep.violated.iter().map(|(_, k)| k.name().to_string()).collect();
+        let desc = json!({"kind": "cancelling-pair", "family": "range", "components": [i, j], "violated": names,
+            "prove": match &proved.result { Ok(_) => "Ok".to_string(), Err(f) => f.text() }});
+        ev.case(&desc, true);
+        ev.bucket("cancelling_pairs");
+        ev.set_insert("cancelling_pair_components", format!("range.{i}+range.{j}"));
+        if rep.violated.len() != 2 {
+            ev.inconclusive(&format!("cancelling pair violates {} components instead of 2", rep.violated.len()));
+            return;
+        }
+        match &proved.result {
+            Err(Fail::Err(Error::CircuitUnsatisfied)) => ev.bucket("unsat_reported"),
+            Ok((proof, pis)) => {
+                let verdict = common::verify(&compiled.verifier, proof, pis, PlonkVersion::V3);
+                ev.violation(&format!("C05:proved-unsatisfied-instance:cancelling-residues:range.{i}+range.{j}:verifier={}", if verdict.is_ok() { "ACCEPTS" } else { "rejects" }), json!({"case": desc}));
+            }
+            Err(Fail::Panic(p)) => ev.violation(&format!("C05:prove-panicked:{}", panic_site(p)), json!({"case": desc})),
+            Err(f) => ev.violation(&format!("C05:wrong-error-for-unsatisfied:{}", short(f)), json!({"case": desc})),
+        }
+    });
+
+    ev.floor("pairs of range components violated with cancelling residues", ev.set_len("cancelling_pair_components") as u64, 6);
     ev.floor("satisfied instances", ev.bucket_get("rsat.satisfied"), tier.pick(60, 600));
     ev.floor("unsatisfied instances", ev.bucket_get("rsat.unsatisfied"), tier.pick(100, 1500));
     ev.floor("proved and verified", ev.bucket_get("proved_and_verified"), tier.pick(60, 600));
